@@ -84,17 +84,6 @@ def unary_op(op: str, arg):
     raise RuntimeError(f"Invalid unary operation {op}")
 
 
-def flatten_sum(expr: sp.Expr) -> sp.Expr:
-    """Turn a nested unevaluated sum ((a + b) + c) into the flat unevaluated sum a + b + c"""
-    if not isinstance(expr, sp.Add):
-        return expr
-    terms: list[sp.Expr] = []
-    for arg in expr.args:
-        arg = flatten_sum(arg)
-        terms.extend(arg.args if isinstance(arg, sp.Add) else [arg])
-    return sp.Add(*terms, evaluate=False)
-
-
 def build_expression(
     root: lark.Tree,
     symbols: dict[str, sp.Symbol] | None = None,
@@ -174,9 +163,11 @@ def build_expression(
                 return getattr(sp, funcname)(*args, evaluate=False)
             if funcname in ("cos", "sin", "tan"):
                 # These functions peel multiples of pi off their argument, and sympy takes
-                # a whole nested (unevaluated) sum that contains pi for a multiple of pi:
-                # cos(x + pi + 1), i.e cos((x + pi) + 1), became -cos(1). Flatten the sum.
-                args = [flatten_sum(sp.sympify(arg)) for arg in args]
+                # a whole unevaluated term that contains pi for a multiple of pi:
+                # cos(x + pi + 1), i.e cos((x + pi) + 1), became -cos(1) and
+                # tan(x - (pi - 10)) became tan(x). Evaluate such an argument first.
+                args = [sp.sympify(arg) for arg in args]
+                args = [arg.doit() if arg.has(sp.pi) else arg for arg in args]
             if funcname == "exp":
                 # exp(x + c) is split into exp(c) * exp(x) when it is created, two factors
                 # that over- or underflow on their own: exp(x + 800.0) became inf*exp(x)
